@@ -325,10 +325,9 @@ fn check_mapping_empty(
         }
     }
     if let Some(idx) = &pos.indexed_properties {
-        if idx.key.is_empty(ctx)? {
-            return Ok(true);
-        }
-        if idx.value.is_empty(ctx)? {
+        // an index signature that admits no key or no value still leaves the object without such keys
+        // (`{}` is a value of `{ [k: string]: never }`); only a Map is judged by its entry types alone
+        if is_map && (idx.key.is_empty(ctx)? || idx.value.is_empty(ctx)?) {
             return Ok(true);
         }
     }
